@@ -121,6 +121,9 @@ pub struct ActScript {
     /// every scripted subscriber that is notified of this action bumps this gate's `entered`
     /// counter (non-blocking): lets a client wait until the action has been fully processed
     pub signal: Option<GateId>,
+    /// see `SubSpec::forwards`
+    #[serde(default)]
+    pub forward: Option<ActId>,
 }
 
 impl ActScript {
@@ -158,6 +161,9 @@ pub enum SubKind {
     /// `fresh`: the selected value is the state hash (changes with every action); otherwise `St::sel`
     Selector { fresh: bool },
     Channeled { cap: usize, pol: Pol, default_ctor: bool },
+    /// one `SelectorSubscriber` object (created once) registered with `add_subscriber`, possibly on
+    /// several stores
+    SelectorObj { fresh: bool },
 }
 
 #[derive(Clone, Debug, PartialEq, Eq, Hash, Serialize, Deserialize)]
@@ -172,6 +178,10 @@ pub struct SubSpec {
     /// register through the `Store` trait methods instead of the inherent ones
     #[serde(default)]
     pub via_trait: bool,
+    /// when notified of an action whose script names a `forward` action, dispatch that action (it
+    /// may belong to another store) from inside on_notify
+    #[serde(default)]
+    pub forwards: bool,
 }
 
 #[derive(Clone, Debug, PartialEq, Eq, Hash, Serialize, Deserialize)]
